@@ -435,8 +435,8 @@ theorem call_order_tie :
       ["lock4headSeq.Lock", "consumedSeq.Store", "acknowledgedSeq.Store", "metaPage.PutUint64", "metaPage.PutUint64"] ∧
     essential ["queue.AppendedSeq", "fo.AcknowledgedSeq", "queue.SetAcknowledgedSeq", "queue.GC"] Generated.C06.syncCalls =
       ["queue.AppendedSeq", "fo.AcknowledgedSeq", "queue.SetAcknowledgedSeq"] ∧
-    essential ["metaPage.ReadUint64", "q.Queue().AcknowledgedSeq", "metaPage.PutUint64"] Generated.C06.newConsumerGroupCalls =
-      ["metaPage.ReadUint64", "metaPage.ReadUint64", "q.Queue().AcknowledgedSeq", "metaPage.PutUint64", "metaPage.PutUint64"] ∧
+    essential ["metaPage.ReadUint64", "metaPage.PutUint64"] Generated.C06.newConsumerGroupCalls =
+      ["metaPage.ReadUint64", "metaPage.ReadUint64", "metaPage.PutUint64", "metaPage.PutUint64"] ∧
     essential ["newQueueFunc", "fq.initConsumerGroups"] Generated.C06.newFanOutQueueCalls =
       ["newQueueFunc", "fq.initConsumerGroups"] ∧
     essential ["listDirFunc", "newConsumerGroupFunc"] Generated.C06.initConsumerGroupsCalls =
